@@ -1,9 +1,41 @@
 import RegexVerif.Sexp
+import RegexVerif.Model.Capacity
 
 namespace RegexVerif.Driver
-open RegexVerif Sexp
+open RegexVerif Sexp Capacity
 
-/-- protocol lines with head `c13` (stub) -/
-def handleC13 (_args : List Sexp) : String := "(unimplemented)"
+/-- protocol lines with head `c13`:
+    `(c13 sim L tc (used₁ used₂ …))` — initial allocation, then one storage check per entry (slots in use at
+       that check) → `(ok len)` or `(err i len)` (check number i failed; len = length of the stack then);
+    `(c13 alloc L tc)` → `(alloc n)`;  `(c13 grow L len)` → `(grow n)` | `(nogrow)`;
+    `(c13 prog (code₀ code₁ …))` — decode the code array with the regenerated opcodeSize table →
+       `(prog ninstr potential trackcount nullmarks gotos)` or `(bad)`. -/
+def handleC13 (args : List Sexp) : String :=
+  match args with
+  | [mode, a, b, c] =>
+    match mode.sym?, a.int?, b.nat?, c.nats? with
+    | some "sim", some L, some tc, some us =>
+      match simulate L tc (alloc0 L tc) 0 us with
+      | (len, none) => toString (mk "ok" [ofNat len])
+      | (len, some i) => toString (mk "err" [ofNat i, ofNat len])
+    | _, _, _, _ => "(bad-op)"
+  | [mode, a, b] =>
+    match mode.sym?, a.int?, b.nat? with
+    | some "alloc", some L, some tc => toString (mk "alloc" [ofNat (alloc0 L tc)])
+    | some "grow", some L, some len =>
+      match grow L len with
+      | some n => toString (mk "grow" [ofNat n])
+      | none => "(nogrow)"
+    | _, _, _ => "(bad-op)"
+  | [mode, a] =>
+    match mode.sym?, a.ints? with
+    | some "prog", some codes =>
+      match decode codes.length codes with
+      | none => "(bad)"
+      | some prog =>
+        toString (mk "prog" [ofNat prog.length, ofNat (phi (weights prog) 0), ofNat (trackCount prog),
+          ofNat (count Generated.Opcodes.opNullmark prog), ofNat (count Generated.Opcodes.opGoto prog)])
+    | _, _ => "(bad-op)"
+  | _ => "(bad-op)"
 
 end RegexVerif.Driver
